@@ -1,6 +1,6 @@
 """C05 - QuantileLinearRegression fits, and scores with, the pinball loss of its quantile."""
 from vf import loader
-from vf.core import Clause, Outcome, Violation, require
+from vf.core import Clause, Outcome, Violation, require, np_scalars
 
 import numpy as np
 from hypothesis import strategies as st
@@ -10,7 +10,7 @@ from sklearn.metrics import mean_absolute_error
 PROPERTY = "C05"
 RULE = ("Hypothesis draws q in (0,1) (0.5 forced in a fraction of cases), a full-rank design (dyadic grid + small continuous jitter), "
         "n 8..60, d 1..3, a linear signal plus continuous noise of three amplitudes, fit_intercept, positive, max_iter in "
-        "{10, 50, 300}, optional integer weights 1..4. Oracles: (optimal) exact LP optimum of the (weighted) pinball loss "
+        "{10, 50, 300}, optional integer weights 1..4; in a third of the cases the hyper-parameters are NumPy scalars (numpy.bool_, numpy.int64, numpy.float64). Oracles: (optimal) exact LP optimum of the (weighted) pinball loss "
         "(scipy HiGHS; same sign constraints when positive=True) - the fit's loss may exceed it by a calibrated factor per "
         "max_iter - and the loss at q of the model fitted for 1-q is not smaller; (fraction) |#{y<f}/n - q| <= (d+3)/n; (score) "
         "score == 2*mean pinball_q exactly (MAE at q=0.5) and is monotone in the true pinball loss under perturbations of the model; "
@@ -71,7 +71,8 @@ def check_fit(case):
     if np.linalg.matrix_rank(np.hstack([X, np.ones((n, 1))])) < d + 1:
         return Outcome(["rank-deficient-skipped"], False)
     X0, y0, w0 = X.copy(), y.copy(), None if w is None else w.copy()
-    m = _Q(quantile=q, max_iter=case["max_iter"], fit_intercept=case["fit_intercept"], positive=case["positive"])
+    m = _Q(**np_scalars(dict(quantile=q, max_iter=case["max_iter"], fit_intercept=case["fit_intercept"], positive=case["positive"]), case.get("np_params", False)))
+    facts["np_params"] = bool(case.get("np_params", False))
     r = m.fit(X, y, sample_weight=w)
     require(r is m, "fit:not-self", "", facts)
     require(np.array_equal(X, X0) and np.array_equal(y, y0) and (w is None or np.array_equal(w, w0)), "input-modified", "", facts)
@@ -104,6 +105,7 @@ def check_fit(case):
                "weighted" if w is not None else "unweighted", "positive" if case["positive"] else "free",
                "intercept" if case["fit_intercept"] else "no-intercept"]
     nt = not (0.45 <= q <= 0.55) or w is not None or case["positive"] or not case["fit_intercept"]
+    labels.append("numpy-scalar-params" if case.get("np_params") else "python-scalar-params")
     return Outcome(labels, nt)
 
 
@@ -114,7 +116,7 @@ def check_score(case):
     facts = _facts(case)
     if np.linalg.matrix_rank(np.hstack([X, np.ones((n, 1))])) < d + 1:
         return Outcome(["rank-deficient-skipped"], False)
-    m = _Q(quantile=q, max_iter=10, fit_intercept=case["fit_intercept"], positive=case["positive"]).fit(X, y)
+    m = _Q(**np_scalars(dict(quantile=q, max_iter=10, fit_intercept=case["fit_intercept"], positive=case["positive"]), case.get("np_params", False))).fit(X, y)
     Z = np.array(case["Z"], dtype=np.float64).reshape(-1, d)
     # evaluation set: the training set or other rows with targets built the same way
     yz = Z @ np.array(case["beta"]) + case["b"] + case["amp"] * np.array(case["noise"][::-1][:len(Z)])
@@ -194,7 +196,7 @@ def _cases(draw, tier="quick", weighted=None, for_score=False):
                        for v in draw(st.lists(st.integers(-999983, 999983).filter(lambda v: v != 0), min_size=60, max_size=60, unique=True))], q=q,
                 fit_intercept=draw(st.sampled_from([True, True, True, False])), positive=draw(st.sampled_from([False, False, False, True])),
                 max_iter=draw(st.sampled_from([10, 50, 300])),
-                w=[draw(st.integers(1, 4)) for _ in range(60)] if has_w else None)
+                w=[draw(st.integers(1, 4)) for _ in range(60)] if has_w else None, np_params=draw(st.sampled_from([False, False, True])))
     if not for_score and not weighted and draw(st.integers(0, 3)) == 0:
         case["outliers"] = [[draw(st.integers(0, 59)), draw(st.sampled_from([1e6, -1e6, 1e4]))] for _ in range(draw(st.integers(1, 3)))]
     if for_score:
